@@ -119,6 +119,7 @@ var functionEnvKeys = []starlark.String{
 	"universal values",
 	"function values",
 	"global values",
+	"parameters",
 	"default parameter values",
 	"free variables",
 	"code",
@@ -336,7 +337,7 @@ func newEnvPickler() pickle.Pickler {
 //
 // - Builtins are pickled as (NEWOBJ "dawn" "Builtin" (name,))
 // - Function code is pickled as (NEWOBJ "dawn" "FunctionCode" (module, globals, bytecode))
-// - Functions are pickled as (NEWOBJ "dawn" "Function" (defaults, freevars, code)).
+// - Functions are pickled as (NEWOBJ "dawn" "Function" (defaults, freevars, code, parameters)).
 func envPickler(x starlark.Value) (module, name string, args starlark.Tuple, err error) {
 	switch x := x.(type) {
 	case *function:
@@ -348,10 +349,23 @@ func envPickler(x starlark.Value) (module, name string, args starlark.Tuple, err
 		return "dawn", "FunctionCode", starlark.Tuple{module, globals, starlark.Bytes(x.Bytecode())}, nil
 	case *starlark.Function:
 		defaults, freevars := x.Env()
-		return "dawn", "Function", starlark.Tuple{optionalDefaults(defaults), freevars, x.Code()}, nil
+		return "dawn", "Function", starlark.Tuple{optionalDefaults(defaults), freevars, x.Code(), parameters(x)}, nil
 	default:
 		return "", "", nil, pickle.ErrCannotPickle
 	}
+}
+
+// parameters describes a function's parameter list: the names in the interpreter's order
+// (positional, keyword-only, *args, **kwargs), the number of keyword-only parameters and
+// whether the last names are *args and **kwargs. The compiled code only refers to parameters
+// by slot, so none of this can be told from the bytecode.
+func parameters(fn *starlark.Function) starlark.Tuple {
+	names := make(starlark.Tuple, fn.NumParams())
+	for i := range names {
+		name, _ := fn.Param(i)
+		names[i] = starlark.String(name)
+	}
+	return starlark.Tuple{names, starlark.MakeInt(fn.NumKwonlyParams()), starlark.Bool(fn.HasVarargs()), starlark.Bool(fn.HasKwargs())}
 }
 
 // optionalDefaults drops the entries of mandatory keyword-only parameters from a function's
@@ -373,7 +387,7 @@ func optionalDefaults(defaults starlark.Tuple) starlark.Tuple {
 //   - Builtins are unpickled from (NEWOBJ "dawn" "Builtin" (name,)) into name
 //   - Function code is unpickled from (NEWOBJ "dawn" "FunctionCode" (module, globals, bytecode))
 //     into a dictionary.
-//   - Functions are unpickled from (NEWOBJ "dawn" "Function" (defaults, freevars, code))
+//   - Functions are unpickled from (NEWOBJ "dawn" "Function" (defaults, freevars, code, parameters))
 //     into a dictionary.
 func envUnpickler(module, name string, args starlark.Tuple) (starlark.Value, error) {
 	if module != "dawn" {
@@ -418,13 +432,17 @@ func envUnpickler(module, name string, args starlark.Tuple) (starlark.Value, err
 		dict.SetKey(starlark.String("code"), bytecode)
 		return dict, nil
 	case "Function":
-		if len(args) != 3 {
-			return nil, fmt.Errorf("expcted 3 args, got %v", len(args))
+		// records written by older versions have no parameter list
+		if len(args) != 3 && len(args) != 4 {
+			return nil, fmt.Errorf("expcted 3 or 4 args, got %v", len(args))
 		}
 		defaults, freeVars, funcode := args[0], args[1], args[2].(*starlark.Dict)
 
 		funcode.SetKey(starlark.String("default parameter values"), makeDictFromAssociationList(defaults))
 		funcode.SetKey(starlark.String("free variables"), makeDictFromAssociationList(freeVars))
+		if len(args) == 4 {
+			funcode.SetKey(starlark.String("parameters"), args[3])
+		}
 		return funcode, nil
 	default:
 		return nil, fmt.Errorf("cannot unpickle value of type %s.%s", module, name)
